@@ -6,10 +6,12 @@
 (*   geometry  whole system, atoms <<species, x, y, z>> (10^-6 Angstrom)    *)
 (*   frags     per fragment: sel (selection argument), links [s, l, f8,     *)
 (*             sp, gsize] (factor in 1/8, anchor species, atoms added),     *)
-(*             low / high (method tokens or "none"), geom (the fragment      *)
-(*             geometry the code built)                                     *)
+(*             low / high: levels [m, o] = method and OPTIONS (basis,       *)
+(*             frozen orbitals, charge, spin; m = "none" when absent),      *)
+(*             geom (the fragment geometry the code built)                  *)
 (*   total     value returned by simulate(), two-limb fixed point           *)
-(*   refs      independent evaluations [m, geom, e] of E(method, geometry)  *)
+(*   refs      independent evaluations [m, o, geom, e] of E(method, options,  *)
+(*             geometry)                                                    *)
 (*             by direct solver calls (the uninterpreted function E sampled *)
 (*             where needed)                                                *)
 (*   expect    "low" | "high" | "none": identity the input was built for    *)
@@ -69,27 +71,28 @@ DistributionOK(j, f) ==
   /\ ExpectedCore(j, f) \subseteq AtomSetOf(f.geom)
   /\ ((\A i \in 1..Len(f.links) : f.links[i].gsize = 1) => ExpectedCore(j, f) = AtomSetOf(f.geom))
 
-Tok(m, g) == <<m, AtomSetOf(g)>>
+Tok(lv, g) == <<lv.m, lv.o, AtomSetOf(g)>>
+Absent(lv) == lv.m = None
 FragBag(b, f) ==
-  IF f.high # None
+  IF ~Absent(f.high)
   THEN LET b1 == BagAdd(b, Tok(f.high, f.geom), 1)
-       IN IF f.low # None THEN BagAdd(b1, Tok(f.low, f.geom), -1) ELSE b1
+       IN IF ~Absent(f.low) THEN BagAdd(b1, Tok(f.low, f.geom), -1) ELSE b1
   ELSE BagAdd(b, Tok(f.low, f.geom), 1)
 RECURSIVE FormalFrom(_, _, _)
 FormalFrom(j, i, b) == IF i > Len(j.frags) THEN b ELSE FormalFrom(j, i + 1, FragBag(b, j.frags[i]))
 Formal(j) == FormalFrom(j, 1, EmptyBag)
 
-RefsOf(j, t)  == {i \in 1..Len(j.refs) : Tok(j.refs[i].m, j.refs[i].geom) = t}
+RefsOf(j, t)  == {i \in 1..Len(j.refs) : Tok(j.refs[i], j.refs[i].geom) = t}
 HasRef(j, t)  == RefsOf(j, t) # {}
 RefVal(j, t)  == j.refs[CHOOSE i \in RefsOf(j, t) : TRUE].e
 \* same ordered geometry => TolSum, otherwise TolPerm
 Deterministic(j) ==
   \A a, b \in 1..Len(j.refs) :
-     (Tok(j.refs[a].m, j.refs[a].geom) = Tok(j.refs[b].m, j.refs[b].geom))
+     (Tok(j.refs[a], j.refs[a].geom) = Tok(j.refs[b], j.refs[b].geom))
         => Close(j.refs[a].e, j.refs[b].e, IF j.refs[a].geom = j.refs[b].geom THEN TolSum ELSE TolPerm)
 
 \* some token was evaluated on differently ordered atom lists: cancellations are then only good to TolPerm
-MixedOrders(j) == \E a, b \in 1..Len(j.refs) : /\ Tok(j.refs[a].m, j.refs[a].geom) = Tok(j.refs[b].m, j.refs[b].geom)
+MixedOrders(j) == \E a, b \in 1..Len(j.refs) : /\ Tok(j.refs[a], j.refs[a].geom) = Tok(j.refs[b], j.refs[b].geom)
                                                 /\ j.refs[a].geom # j.refs[b].geom
 
 \* SUM coef * E in limbs, compared with the total
@@ -101,9 +104,8 @@ SumClose(j, b, tol) == LET dh == SumHi(j, b) - j.total[1]
                           /\ Abs(dh * 1000000 + dl) <= tol
 
 Telescoped(b) == Cardinality(DOMAIN b) = 1 /\ \A t \in DOMAIN b : b[t] = 1
-WholeTok(j, m) == Tok(m, j.geometry)
-SystemLow(j)  == LET S == {i \in 1..Len(j.frags) : j.frags[i].sel.kind = "none" /\ j.frags[i].high = None} IN
-                 IF S = {} THEN None ELSE j.frags[CHOOSE i \in S : TRUE].low
+WholeTok(j, lv) == Tok(lv, j.geometry)
+SystemFrags(j) == {i \in 1..Len(j.frags) : j.frags[i].sel.kind = "none" /\ Absent(j.frags[i].high)}
 
 OniomVerdict(j) ==
   IF ~(\A i \in 1..Len(j.frags) : SelOK(j.frags[i].sel, NAtoms(j))) THEN "malformed-selection"
@@ -114,9 +116,11 @@ OniomVerdict(j) ==
        ELSE IF ~Deterministic(j) THEN "equal-tokens-different-energies"
        ELSE IF ~Close(j.total, j.total2, 0) THEN "second-simulate-differs"
        ELSE IF ~SumClose(j, b, IF MixedOrders(j) THEN TolPerm ELSE TolSum) THEN "total-is-not-the-formal-sum"
-       ELSE IF j.expect = "low" /\ ~(Telescoped(b) /\ b = Single(WholeTok(j, SystemLow(j)))) THEN "identity-low-does-not-telescope"
-       ELSE IF j.expect = "high" /\ ~(Telescoped(b) /\ \E m \in {j.frags[i].high : i \in 1..Len(j.frags)} : b = Single(WholeTok(j, m)))
+       ELSE IF j.expect = "low" /\ ~(Telescoped(b) /\ \E i \in SystemFrags(j) : b = Single(WholeTok(j, j.frags[i].low)))
+            THEN "identity-low-does-not-telescope"
+       ELSE IF j.expect = "high" /\ ~(Telescoped(b) /\ \E i \in 1..Len(j.frags) : ~Absent(j.frags[i].high) /\ b = Single(WholeTok(j, j.frags[i].high)))
             THEN "identity-high-does-not-telescope"
+       ELSE IF j.expect = "none" /\ Telescoped(b) THEN "malformed-unexpected-telescoping"
        ELSE "ok"
 
 \* ---- Link.relink alone (exact): [s, l, f8] in 1/8, cap in 1/64 ------------------------------
